@@ -350,6 +350,17 @@ func (g *generator) walkAllOf(schema *openapi3.Schema) (ast.Type, error) {
 		branches[i] = def
 	}
 
+	// the properties written next to `allOf` belong to the schema as much as the ones its
+	// branches bring: they make one more branch, as they would in `allOf: [<ref>, {properties: …}]`
+	if len(schema.Properties) != 0 {
+		own, err := g.walkObject(schema)
+		if err != nil {
+			return ast.Type{}, err
+		}
+
+		branches = append(branches, own)
+	}
+
 	return ast.NewIntersection(branches), nil
 }
 
